@@ -48,9 +48,11 @@ class RefValueSurface(core.Surface):
     def model(self, rn, x):
         from pycfmodel.model.parameter import Parameter
         try:
-            d = resgen.to_wire(Parameter(**copy.deepcopy(x["decl"])).model_dump())
+            d = Parameter(**copy.deepcopy(x["decl"])).model_dump()
         except Exception:
             return ("EXC", "EUndefined", "")
+        d["Default"] = copy.deepcopy(x["decl"].get("Default"))      # the declaration's own Default, not what validation made of it
+        d = resgen.to_wire(d)
         return core.model_res(rn.call(103, [d, resgen.to_wire(x["supplied"])]))
 
     def tags(self, x):
@@ -95,7 +97,7 @@ class SecretSurface(core.Surface):
         extra = dict(x["extra"])
         for s in x["secrets"]:
             extra[s] = x["token1"]
-        r = core.model_res(rn.call(102, tplgen.model_args(m, extra)))
+        r = core.model_res(rn.call(102, tplgen.model_args(m, extra, x["template"])))
         if r[0] != "OK":
             return ("EXC", "EUndefined", "")     # failing resolutions are C01/C02/C05's business
         leak = x["token1"] in json.dumps(wire.jsonable(r[1]), default=str)
@@ -130,7 +132,7 @@ class HcSurface(core.Surface):
             m = pycfmodel.parse(copy.deepcopy(x["template"]))
         except Exception:
             return ("EXC", "EUndefined", "")
-        r = core.model_res(rn.call(102, tplgen.model_args(m, x["extra"])))
+        r = core.model_res(rn.call(102, tplgen.model_args(m, x["extra"], x["template"])))
         if r[0] != "OK":
             return ("EXC", "EUndefined", "")
         res = r[1]["Resources"].get(x["rid"])
